@@ -5,7 +5,6 @@ use crate::common::io;
 use crate::common::io::IO;
 use std::path::Path;
 use std::collections::HashMap;
-use std::ffi::OsStr;
 use crate::backend::built_ins::BuiltInFunctionList;
 use crate::common::pakhi_error::PakhiErr;
 
@@ -108,10 +107,10 @@ struct Parser {
     tokens: Vec<Token>,
     current: usize,
     main_module_path: String,
-    // Stores all imported child modules names for every parent module
-    // key: Parent module name
-    // value: Every imported child modules name
-    parent_child_relationship: HashMap<String, Vec<String>>,
+    // Stores file path of every imported module
+    // key: Name module was imported with, already prepended with import names of modules that led to it
+    // value: Module's file path
+    module_files: HashMap<Vec<char>, String>,
     // Storing all built-in function names because when modules identifiers are renamed
     // we don't want to rename built-in functions
     built_in_functions: BuiltInFunctionList,
@@ -123,7 +122,7 @@ impl Parser {
             tokens,
             current: 0,
             main_module_path: String::new(),
-            parent_child_relationship: HashMap::new(),
+            module_files: HashMap::new(),
             built_in_functions: BuiltInFunctionList::new(),
         }
     }
@@ -134,16 +133,6 @@ impl Parser {
     }
 
     fn parse(&mut self) -> Result<Vec<Stmt>, PakhiErr> {
-        // Figuring out which modules are direct child of root module
-        let parent_module_file_name = self.extract_filename(&self.main_module_path);
-        let child_modules_paths = self.extract_all_import_paths(&self.tokens)?;
-        let child_modules_file_name = self.extract_filenames(&child_modules_paths);
-        let mut new_childs: Vec<String> = Vec::new();
-        for new_child_name in child_modules_file_name {
-            new_childs.push(new_child_name);
-        }
-        self.parent_child_relationship.insert(parent_module_file_name.clone(), new_childs);
-
         self.expand_dirname_constant_for_root_module();
 
         let mut statements: Vec<Stmt> = Vec::new();
@@ -269,32 +258,25 @@ impl Parser {
             return Err(PakhiErr::SyntaxError(line, file_name,
                                              "Not a valid module file name".to_string()));
         }
-        let imported_tokens = self.get_tokens_from_module(&module_path, module_import_name)?;
-        let parent_module_file_name = self.extract_filename(&module_path);
-        let child_modules_paths = self.extract_all_import_paths(&imported_tokens)?;
-        let child_modules_file_name = self.extract_filenames(&child_modules_paths);
-
         // Checking for cyclic module dependency
-        // and figuring out who is parent of which modules
-        match self.parent_child_relationship.get_mut(&*parent_module_file_name) {
-            Some(childs) => {
-                for new_child_name in child_modules_file_name {
-                    if childs.contains(&new_child_name) {
-                        return Err(PakhiErr::RuntimeError(0, "".to_string(),
-                            format!("Cyclic module dependency. Can't import {} from {}",
-                                    parent_module_file_name, new_child_name)));
-                    }
-                    childs.push(new_child_name);
+        // module is cyclic if it's one of the modules that led to this import statement,
+        // import names of those modules are the prefixes of this import name
+        let module_file = self.same_file_key(&self.module_file_path(&module_path));
+        let mut importing_modules_files = vec![self.same_file_key(&self.main_module_path)];
+        for (i, c) in module_import_name.iter().enumerate() {
+            if *c == '/' {
+                if let Some(file) = self.module_files.get(&module_import_name[..i].to_vec()) {
+                    importing_modules_files.push(file.clone());
                 }
-            },
-            None => {
-                let mut new_childs: Vec<String> = Vec::new();
-                for new_child_name in child_modules_file_name {
-                    new_childs.push(new_child_name);
-                }
-                self.parent_child_relationship.insert(parent_module_file_name.clone(), new_childs);
             }
         }
+        if importing_modules_files.contains(&module_file) {
+            return Err(PakhiErr::RuntimeError(0, "".to_string(),
+                format!("Cyclic module dependency. Can't import {}", module_path)));
+        }
+        self.module_files.insert(module_import_name.clone(), module_file);
+
+        let imported_tokens = self.get_tokens_from_module(&module_path, module_import_name)?;
 
         // tokens is inserted after whole module import statement
         // after importing module self.current will point to semicolon of module import statement
@@ -307,11 +289,25 @@ impl Parser {
         Ok(())
     }
 
-    fn get_tokens_from_module(&self, path: &String, prepend: Vec<char>) -> Result<Vec<Token>, PakhiErr> {
+    // Modules are located relative to directory of main module
+    fn module_file_path(&self, path: &String) -> String {
         let module_path = Path::new(path.as_str());
-        let current_module_root = Path::new(self.main_module_path.as_str()).parent().unwrap();
+        let current_module_root = Path::new(self.main_module_path.as_str()).parent().unwrap_or(Path::new(""));
         let modules_relative_path_to_current_modules = current_module_root.join(module_path);
-        let final_module_path = modules_relative_path_to_current_modules.as_path().to_str().unwrap();
+        modules_relative_path_to_current_modules.as_path().to_str().unwrap().to_string()
+    }
+
+    // Different paths can name same file, canonical path is used for comparing when file exists
+    fn same_file_key(&self, path: &String) -> String {
+        match std::fs::canonicalize(path) {
+            Ok(canonical_path) => canonical_path.to_string_lossy().to_string(),
+            Err(_) => path.clone(),
+        }
+    }
+
+    fn get_tokens_from_module(&self, path: &String, prepend: Vec<char>) -> Result<Vec<Token>, PakhiErr> {
+        let final_module_path = self.module_file_path(path);
+        let final_module_path = final_module_path.as_str();
 
         let mut io = io::RealIO::new();
         let src_string = io.read_src_code_from_file(final_module_path);
@@ -417,61 +413,6 @@ impl Parser {
                 }
                 token.lexeme.insert(i, '/');
             }
-        }
-    }
-
-    fn extract_filename(&self, path: &String) -> String {
-        let path = Path::new(path);
-        // paths like "" or ".." have no file name, using whole path so that caller can report it as invalid
-        let file_name = OsStr::to_string_lossy(path.file_name().unwrap_or(path.as_os_str()));
-        file_name.to_string()
-    }
-
-    fn extract_filenames(&self, paths: &Vec<String>) -> Vec<String> {
-        let mut file_names: Vec<String> = Vec::new();
-        for path in paths {
-            file_names.push(self.extract_filename(path));
-        }
-        file_names
-    }
-
-    fn extract_all_import_paths(&self, tokens: &Vec<Token>) -> Result<Vec<String>, PakhiErr> {
-        let import_stmt_start_token_indexes = self.find_all_imports_start(tokens);
-        let mut modules_paths: Vec<String> = Vec::new();
-        for i in import_stmt_start_token_indexes {
-            let module_paths = self.get_module_path_from_import_stmt(tokens, i);
-            match module_paths {
-                Ok(path) => modules_paths.push(path),
-                Err(e) => return Err(e),
-            }
-        }
-        let file_names = self.extract_filenames(&modules_paths);
-        return Ok(file_names);
-    }
-
-    fn find_all_imports_start(&self, tokens: &Vec<Token>) -> Vec<usize> {
-        let mut all_imports_starting_token_index: Vec<usize> = Vec::new();
-        for (i, t) in tokens.iter().enumerate() {
-            if t.kind == TokenKind::Import {
-                all_imports_starting_token_index.push(i)
-            }
-        }
-        all_imports_starting_token_index
-    }
-
-    fn get_module_path_from_import_stmt(&self, tokens: &Vec<Token>,
-                                        import_stmt_start_index: usize) -> Result<String, PakhiErr>
-    {
-        let import_path_offset = 3;
-        match tokens.get(import_stmt_start_index + import_path_offset).map(|t| t.kind.clone()) {
-            Some(TokenKind::String(import_path)) => {
-                return Ok(self.extract_filename(&import_path));
-            },
-            _ => {
-                let (line, file_name) = self.extract_err_meta()?;
-                return Err(PakhiErr::SyntaxError(line, file_name,
-                                                 "import path is not valid".to_string()));
-            },
         }
     }
 
